@@ -28,6 +28,12 @@ def call_with_super_check(wrapped: Callable[..., Any], *args: Any, **kwargs: Any
     self = wrapped.__self__  # type: ignore  # should actually be MethodType, but mypy does not handle this
     call_count = getattr(self, '_called', 0)
     self._called = call_count + 1
-    wrapped(*args, **kwargs)
+    try:
+        wrapped(*args, **kwargs)
+    except BaseException:
+        # The call did not get to the base implementation: leave the counter as it was found, or the check of an
+        # enclosing call on the same object (this one may be nested in it) would fail for no fault of that call
+        self._called = call_count
+        raise
     msg = f"Base '{wrapped.__name__}' was not called from '{self.__class__}'\nHint: Did you forget to call the super?"
     assert self._called == call_count, msg
